@@ -286,6 +286,43 @@ impl Prop for Unix {
                     Ok(Slot::Ok { v: V::Time(ts, _, _, _), .. }) => {
                         n_for_class = Some(ts);
                         expect_raw(&mut acc, &last, ts, "time as unix");
+                        // two relations that do not depend on which calendar day "today" is:
+                        // (a) the seconds between midnight and T in the same zone are T's wall-clock seconds
+                        let midnight = crate::c11::TimeLit { h: 0, m: 0, s: None, form: 0, mcase: 0 };
+                        let mut l0 = Line::default();
+                        l0.push(midnight.tok());
+                        if let Some(zn) = zn {
+                            l0.push(zn.tok(0, 0));
+                        }
+                        l0.push(Tok::word("as", Class::Conn));
+                        l0.push(Tok::word("unix", Class::Keyword));
+                        match w.eval1(&cfg, "en", &l0.render(",", ".")) {
+                            Ok(Slot::Ok { v: V::Num(m0, NT::Raw), .. }) => {
+                                if acc.ok() && (ts as f64 - m0) != t.wall() as f64 {
+                                    acc.fail(format!("'{}' is {} s after '{}' ({}), expected the wall-clock seconds {}", alone.render(",", "."), ts as f64 - m0, l0.render(",", "."), m0, t.wall()));
+                                }
+                            }
+                            Ok(o) => acc.fail(format!("{:?} gives {}", l0.render(",", "."), o.brief())),
+                            Err(e) => acc.fail(e),
+                        }
+                        // (b) a time without a zone under default zone Z is the same instant as the time written with Z
+                        if acc.ok() && zn.is_none() {
+                            let zexp = c.default_tz.clone().unwrap_or(Zone::Abbr("UTC".to_string()));
+                            let mut l1 = Line::default();
+                            l1.push(t.tok());
+                            l1.push(zexp.tok(0, 0));
+                            l1.push(Tok::word("as", Class::Conn));
+                            l1.push(Tok::word("unix", Class::Keyword));
+                            match w.eval1(&cfg, "en", &l1.render(",", ".")) {
+                                Ok(Slot::Ok { v: V::Num(x, NT::Raw), .. }) => {
+                                    if x != ts as f64 {
+                                        acc.fail(format!("under the default zone {} the time alone is the instant {}, written with its zone ({:?}) it is {}", zexp.text(), ts, l1.render(",", "."), x));
+                                    }
+                                }
+                                Ok(o) => acc.fail(format!("{:?} gives {}", l1.render(",", "."), o.brief())),
+                                Err(e) => acc.fail(e),
+                            }
+                        }
                     }
                     Ok(o) => acc.fail(format!("the time alone gives {}", o.brief())),
                     Err(e) => acc.fail(e),
